@@ -186,6 +186,16 @@ func genC02(rng *rand.Rand, n int, emit func(Case), dist map[string]int) {
 				if len(rs) >= 3 && len(perms) >= 3 {
 					cs.Key = fmt.Sprintf("%s|%s|%s", rShowTable(prs), ms[qi], path)
 				}
+				// known finding D11: a RouteNotFound route on a wildcard node ends the search although a
+				// route for the method matches further up the backtracking path
+				if ok && o.status == 200 && prs[o.id].method == rNF {
+					for _, r := range prs {
+						if r.method == ms[qi] && rMatch(r.pattern, rp) {
+							cs.Ok, cs.Why = false, fmt.Sprintf("route %s %s matches the path but the custom not-found route %s answered", r.method, r.pattern, prs[o.id].pattern)
+							cs.Key = "known:router.nf_wildcard_preempts"
+						}
+					}
+				}
 				dist[fmt.Sprintf("status_%d", o.status)]++
 				dist[fmt.Sprintf("orders_%d", len(perms))]++
 				emit(cs)
